@@ -66,6 +66,31 @@ func c04NewServer(cfg c04Config) *mcp.Server {
 	srv.RegisterTool(mcp.NewTool("echo", mcp.WithString("text")), func(ctx context.Context, req *mcp.CallToolRequest) (*mcp.CallToolResult, error) {
 		return mcp.NewTextResult("x"), nil
 	})
+	// counter: how many times THIS session has called it (kept in the session's data)
+	srv.RegisterTool(mcp.NewTool("counter"), func(ctx context.Context, req *mcp.CallToolRequest) (*mcp.CallToolResult, error) {
+		n := 0
+		sess, _ := mcp.GetSessionFromContext(ctx)
+		if sess == nil {
+			sess = mcp.ClientSessionFromContext(ctx)
+		}
+		if sess != nil {
+			if v, ok := sess.GetData("verif-n"); ok {
+				n, _ = v.(int)
+			}
+			n++
+			sess.SetData("verif-n", n)
+		} else {
+			n = 1
+		}
+		return mcp.NewTextResult(fmt.Sprintf("n=%d", n)), nil
+	})
+	// notify-first: a notification goes out before the result (on an SSE answer it is the first frame)
+	srv.RegisterTool(mcp.NewTool("notify-first"), func(ctx context.Context, req *mcp.CallToolRequest) (*mcp.CallToolResult, error) {
+		if sender, ok := mcp.GetNotificationSender(ctx); ok {
+			sender.SendLogMessage("info", "before the result")
+		}
+		return mcp.NewTextResult("after-notification"), nil
+	})
 	return srv
 }
 
@@ -134,8 +159,13 @@ func c04RunPath(cfg c04Config, id string, steps []c04Step, foreign string, share
 			r = peer.PostJSON(ctx, url, hdr, peer.InitRequest(1), st.SSE)
 		case "req":
 			body := `{"jsonrpc":"2.0","id":7,"method":"tools/list"}`
-			if st.Variant%2 == 1 {
+			switch st.Variant % 4 {
+			case 1:
 				body = `{"jsonrpc":"2.0","id":"p","method":"ping"}`
+			case 2:
+				body = `{"jsonrpc":"2.0","id":8,"method":"tools/call","params":{"name":"counter","arguments":{}}}`
+			case 3:
+				body = `{"jsonrpc":"2.0","id":9,"method":"tools/call","params":{"name":"notify-first","arguments":{}}}`
 			}
 			r = peer.PostJSON(ctx, url, hdr, []byte(body), st.SSE)
 			o.Body = string(r.Body)
